@@ -334,6 +334,17 @@ def stage_oracle(ctx: Ctx, progs):
                 ctx.violation('path-injective', 'two nodes share one path', {'src': src, 'path': key})
                 break
             paths.add(key)
+            # the string form of the path, and paths from every ancestor
+            ps = root.child_path(f, True)
+            if root.child_from_path(ps) is not f:
+                ctx.violation('path-roundtrip-str', 'child_from_path(child_path(n, as_str=True)) is not n', {'src': src, 'node': type(f.a).__name__, 'path': ps})
+                break
+            anc = f.parent
+            while anc is not None and anc is not root:
+                if anc.child_from_path(anc.child_path(f)) is not f or anc.child_from_path(anc.child_path(f, True)) is not f:
+                    ctx.violation('path-roundtrip-ancestor', 'a path taken from an ancestor does not lead back to the node', {'src': src, 'node': type(f.a).__name__, 'ancestor': type(anc.a).__name__})
+                    break
+                anc = anc.parent
 
 
 def run(ctx: Ctx):
@@ -345,6 +356,9 @@ def run(ctx: Ctx):
                         'the six special classes are compared by the oracle only']
     ok = stage_translate(ctx)
     progs = corpus(ctx.rng, gen=ctx.scale(25, 250))
+    # wide nodes: list indices of two and three digits in paths
+    progs.append('\n'.join(f's{i} = {i}' for i in range(13)) + '\nw = [' + ', '.join(f'e{i}' for i in range(12)) + ']\nd = {' + ', '.join(f'{i}: v{i}' for i in range(11)) + '}\n'
+                 'f(' + ', '.join(f'a{i}' for i in range(11)) + ', ' + ', '.join(f'k{i}=1' for i in range(11)) + ')\n' + 'big = (' + ', '.join(str(i) for i in range(105)) + ')\n')
     if ok:
         ctx.build_props()
     run_guarded(ctx, stage_tables_corr, progs)
